@@ -40,7 +40,7 @@ CLAIMS["C05"] = ("bounded symbolic execution (symx, real arithmetic) of the real
 CLAIMS["C16"] = ("bounded symbolic execution (symx, real arithmetic) of the real path-construction, painting, colour and q/Q/cm operators and PDFLayoutAnalyzer.paint_path against a reference model of ISO 32000-1 8.5",
          "For every program [q] state-op (w d G g RG rg K k cm, or a colour operator followed by sc/scn/SC/SCN) ; m|re + K construction operators chosen symbolically ; any painting operator ; [Q sc|SC] ; m l S, "
          "with ALL operands symbolic reals, each painted subpath yields one shape with the transformed end points in order, the right class (line / closed axis-aligned quadrilateral / curve), flags, line width, dash, "
-         "colours at painting time, q/Q restoring them, and n leaving no residue; five-point subpaths with all coordinates symbolic are classified line / rectangle / curve correctly; X ; q ; Y ; paint ; Q ; paint for every pair of state operators restores every component (CTM, width, dash, colours, colour spaces). K=2 quick, 3 thorough; floats as reals.",
+         "colours at painting time, q/Q restoring them, and n leaving no residue; five-point subpaths with all coordinates symbolic are classified line / rectangle / curve correctly; X ; q ; Y ; paint ; Q ; paint for every pair of state operators restores every component (CTM, width, dash, colours, colour spaces); for every pair of pages, each with none or one named colour space in its resources, a name selects what the page's OWN resources define whatever was interpreted before (predefined table unchanged). K=2 quick, 3 thorough; floats as reals.",
          "4.C16")
 CLAIMS["C19"] = ("bounded symbolic execution (symx, symbolic pixels) of the real CCITTG4Parser coding steps, mode interpreter and ccittfaxdecode against the T.6 definitions and a reference T.6 encoder",
          "From every line state (all reference-line bits, a0, colour, coded prefix symbolic; W=8 quick, 10 thorough) one vertical / pass / horizontal step does what T.6 2.2 defines; for every bitmap of the bounded "
@@ -50,7 +50,7 @@ CLAIMS["C19"] = ("bounded symbolic execution (symx, symbolic pixels) of the real
 CLAIMS["C08"] = ("bounded symbolic execution (symx, real arithmetic) of the real LTPage.analyze / group_objects / group_textlines / group_textboxes on real LTChar objects with symbolic boxes",
          "For every position of two fixed-size glyphs (quick; also two general glyphs, degenerate zero-width/height glyphs with ordinary/blank/empty text and three glyphs in thorough) plus a non-text item, under each "
          "listed LAParams vector (defaults, boxes_flow=None, detect_vertical, negative, ...), analysis terminates, every item occurs exactly once, every line/box/group box is the union of its members, lines end in a "
-         "line break and are ordered inside boxes, boxes are numbered 0..n-1, container text is the concatenation; the lines-to-boxes stage alone (group_textlines + box.analyze) on 2 (3 thorough) one-glyph lines of either orientation: conservation, union, top-to-bottom / right-to-left order. One z3 formula per path; bounded.",
+         "line break and are ordered inside boxes, boxes are numbered 0..n-1, container text is the concatenation; the lines-to-boxes stage alone (group_textlines + box.analyze) on 2 (3 thorough) one-glyph lines of either orientation: conservation, union, top-to-bottom / right-to-left order; two glyphs at fixed places (stacked or side by side) plus a third anywhere under five parameter vectors incl. detect_vertical: the same page-level clauses incl. numbering. One z3 formula per path; bounded.",
          "4.C08")
 CLAIMS["C09"] = ("bounded symbolic execution (symx, real arithmetic) of the real group_objects / LTTextLine*.add / find_neighbors / analyze on two objects with symbolic boxes and symbolic LAParams",
          "For ALL box coordinates and ALL line_overlap in [0,1), char_margin, word_margin: two consecutive glyphs share a line exactly when they overlap vertically by more than line_overlap x min height and are "
@@ -70,17 +70,17 @@ CLAIMS["C17"] = ("bounded symbolic execution (symx) of the real NumberTree, Page
 CLAIMS["C18"] = ("bounded symbolic execution (symx, symbolic bytes) of the real ImageWriter.export_image/_save_bmp/BMPWriter and PDFContentParser inline-image scanning",
          "For each listed geometry (1/8/24 bits, widths 1..9, heights 1..3) and ALL sample bytes the exported BMP, decoded by a reference BMP reader, gives back exactly the stored samples, with a file length "
          "matching its header; export_image chooses a writer without exception for every listed filter list / colour space / bit depth and writes JPEG data unchanged; for ALL inline image data of up to 4 symbolic "
-         "bytes not containing the end marker the data is captured completely and the following operators are read as without the image, also when the image sits in a later stream of a Contents array (5 layouts of earlier streams).",
+         "bytes not containing the end marker the data is captured completely and the following operators are read as without the image, also when the image sits in a later stream of a Contents array (5 layouts of earlier streams); every sequence of up to 3 (thorough 4) images over four names and two formats exported into one real directory gives as many files as images, distinct names, each file holding its own samples.",
          "4.C18")
 CLAIMS["C15"] = ("symbolic execution of the real CMapDB._load_data and ImageWriter._create_unique_image_name: CrossHair (symbolic str over all of Unicode, budgeted) plus symx (every name over an 8-letter hostile alphabet, exhaustive)",
          "With the filesystem replaced by a recording stub whose exists() answers are symbolic, every path that a CMap name makes the library probe or open lies directly inside one of the two character-map "
          "directories, and the path chosen for an exported image lies directly inside the output directory, was reported non-existing and is the unique first free candidate - confirmed over all paths for "
-         "every name of length <= 4 over the alphabet '/', '.', NUL, backslash, letters, ':', '~', and for every name of length <= 7 over './a' with CMAP_PATH=/e/a/ (sibling directories such as ../aa/a); CrossHair searches names of length <= 5 over all code points within its time budget (no counterexample; not a confirmation).",
+         "every name of length <= 4 over the alphabet '/', '.', NUL, backslash, letters, ':', '~', and for every name of length <= 7 over './a' with CMAP_PATH=/e/a/ (sibling directories such as ../aa/a); image names of 200..5000 characters in seven shapes satisfy the same contract (real calls selected by symbolic choices); CrossHair searches names of length <= 5 over all code points within its time budget (no counterexample; not a confirmation).",
          "4.C15")
 CLAIMS["C11"] = ("symbolic execution (symx; strings as symbolic choices over a hostile alphabet) of the real TextConverter / XMLConverter.receive_layout and utils.enc",
          "For every glyph text, font name and figure name of length <= 3 over an alphabet of XML-special, quote, control, non-ASCII and ordinary characters: the XML output parses with an independent XML parser and "
          "reproduces page, boxes, figure name, fonts, sizes and character data of the tree; the text output is the in-order concatenation with a line break per box and a form feed per page; a binary sink with each "
-         "listed codec holds the same characters as a text sink; enc() round-trips through html.unescape without raw markup; with strip_control each of the 32 C0 controls and DEL inside a glyph text leaves well-formed XML. Exhaustive over the alphabet bound (confirmed over all paths).",
+         "listed codec holds the same characters as a text sink; enc() round-trips through html.unescape without raw markup; with strip_control each of the 32 C0 controls and DEL inside a glyph text leaves well-formed XML; for every sequence of 3 items from nine kinds (boxes of both orientations, figures, shapes, image, a text line directly on the page) the XML has the tree's structure and the text output is the in-order text. Exhaustive over the alphabet bound (confirmed over all paths).",
          "4.C11")
 CLAIMS["C06"] = ("symbolic execution (symx) of the real EncodingDB.get_encoding, name2unicode, PDFSimpleFont.to_unichr and PDFType1Font/PDFType3Font width handling",
          "For every Differences array of up to 3 items (codes and glyph names by symbolic choice) over each base encoding the result is the base table overlaid per ISO 9.6.6 and the shared tables are untouched; "
@@ -110,7 +110,7 @@ CLAIMS["C13"] = ("symbolic execution (symx) of the typed accessors, tree/chain w
          "4.C13")
 CLAIMS["C12"] = ("symbolic execution (symx) of the operations that touch process-wide or cached state (get_encoding, use_cmap, interning, init_resources, get_font, resolve_all/decipher_all, CMapDB caches), plus small end-to-end call histories driven by symbolic choices",
          "PARTIAL by design: arbitrary histories and interleavings of extract_* calls are whole-program runs; the claim is reduced to frame conditions - each operation leaves the shared tables / the document's own "
-         "dictionaries unchanged and returns what it returns in isolation, for every bounded history (Differences arrays, 3-call get_font histories over six fonts - two sharing a descendant, two without /Encoding of which one recovers it from an embedded font program - with every EncodingDB table compared before/after, 3-call CMapDB histories, "
+         "dictionaries unchanged and returns what it returns in isolation, for every bounded history (Differences arrays, 3-call get_font histories over eight fonts - two sharing a descendant, two without /Encoding of which one recovers it from an embedded font program, two uses of standard-14 Helvetica with different Differences - with every EncodingDB table and the standard-14 metrics table compared before/after, 3-call CMapDB histories, "
          "2 earlier interns) - and checked end to end on every 3-call history over two documents that share object numbers and font names, with caching on/off, page-at-a-time vs together, and interleaved "
          "page iterators. The inventory of module/class-level mutable containers is recomputed from the AST on every run.",
          "4.C12")
